@@ -291,6 +291,8 @@ func init() {
 						monitorFinding(c, jr, p, "store to memory reachable from a package variable ("+w.Tag+") at "+w.Site)
 					case strings.HasPrefix(w.Tag, "input:"), strings.HasPrefix(w.Tag, "lazy:"):
 						monitorFinding(c, jr, p, "store into the linted object ("+w.Tag+") at "+w.Site)
+					case strings.HasPrefix(w.Tag, "published:"):
+						monitorFinding(c, jr, p, "store into memory the linted object already holds, e.g. a parse cache ("+w.Tag+") at "+w.Site)
 					}
 				}
 				for _, ef := range p.Effects {
@@ -435,7 +437,34 @@ func init() {
 			}
 		}
 		c.Extra["lints_selected"] = n
-		c.Post = sweepPost
+		c.Post = func(c *Check) {
+			sweepPost(c)
+			// a lint that rewrites the certificate's lists or its parse caches makes what later lints see depend on
+			// where an entry sat: reported here as well (the stores are observed by the write monitor)
+			for _, jr := range c.Results {
+				if jr == nil || jr.Res == nil || !jr.Job.Sweep {
+					continue
+				}
+				for i := range jr.Res.Paths {
+					p := &jr.Res.Paths[i]
+					if p.End == "infeasible" {
+						continue
+					}
+					for _, w := range p.Writes {
+						if strings.HasPrefix(w.Tag, "published:") || (strings.HasPrefix(w.Tag, "lazy:") && !strings.Contains(w.Tag, "|unexported:")) {
+							parts := strings.SplitN(jr.Job.Label, "/", 3)
+							name := parts[len(parts)-1]
+							conf := "yes"
+							if usesUnreplayable(p.Stubs) {
+								conf = "no"
+							}
+							c.Findings = append(c.Findings, &Finding{Key: "order/san/" + name + ": store into the certificate's name lists or parse cache (" + w.Tag + ") at " + w.Site, Msg: "a lint rewrites name lists / parse caches other lints read", Func: jr.Job.Func, Pkg: jr.Job.Pkg, Kind: "side", Confirmed: conf, Site: w.Site,
+								ReplayOut: "observed by the engine's monitor"})
+						}
+					}
+				}
+			}
+		}
 	}
 }
 
